@@ -50,6 +50,11 @@ Definition c01_one (p : fcprog) (r : list Z * string * native_outcome) : option 
    texts <Type>_<k>[_<Xtor>] ambiguous; the assembler then reports a symbol defined twice *)
 Fixpoint contains (sub s : string) : bool :=
   String.prefix sub s || match s with EmptyString => false | String _ r => contains sub r end.
+Fixpoint one_line (s : string) : string :=
+  match s with
+  | EmptyString => EmptyString
+  | String c r => String (if Nat.eqb (Ascii.nat_of_ascii c) 10 then Ascii.ascii_of_nat 32 else c) (one_line r)
+  end.
 Definition fun_name_digits (p : fcprog) : bool :=
   existsb has_usd (map fdaname (fcpdata p) ++ map fcoaname (fcpcodata p))
   && existsb (fun x => has_usd x || hd_dig x)
@@ -64,8 +69,8 @@ Definition c01_case (i r : sexp) : verdict :=
           match r with
           | L [L [A "asm-error"; Q e]] =>
               if contains "already defined" e && fun_name_digits p
-              then VViol ("class=label-collision-name-digits-e2e " ++ name ++ ": " ++ trunc 600 e)
-              else VViol ("class=assembler-rejects " ++ name ++ ": " ++ trunc 600 e)
+              then VViol ("class=label-collision-name-digits-e2e " ++ name ++ ": " ++ one_line (trunc 600 e))
+              else VViol ("class=assembler-rejects " ++ name ++ ": " ++ one_line (trunc 600 e))
           | L (A "asm-ok" :: runs) =>
               match omap g_native runs with
               | None => VBad "native runs unreadable"
